@@ -100,7 +100,7 @@ def r3(cx, rec):
             for n, comp in (('ip', '0'), ('peer_id', '1'), ('port', '2')):
                 v = fields.get(n)
                 s = show(v) if v else ''
-                rec.need(v is not None and re.search(r'\.%s[)<]' % comp, s) is not None, 'peeraddr/' + n, f, bi,
+                rec.need(v is not None and re.search(r'\.%s<Ok>\.0$' % comp, s) is not None, 'peeraddr/' + n, f, bi,
                          'PeerAddr.%s is built from %s' % (n, s[-80:]))
         for bi, si, s in f.assigns():
             if f.path.startswith('tracker_resp::') and s['rv']['k'] == 'agg' and s['rv'].get('ak') == 'tuple' and len(s['rv']['ops']) == 3:
